@@ -98,6 +98,6 @@ KERNELS = [
     K(fn="add_back", lean_name="add_back_src", params="(s initial : State)", ret_type="State", env={**ROWS, **IROWS}, result=rows,
       doc="`State::add_back`"),
 ]
-HEADER = "import CxVerif.Impl.ChaCha\nnamespace Cx.Extracted.KernelsChaChaSse2\nopen Cx Cx.Impl Cx.Impl.ChaCha.Sse2\n"
+HEADER = "import CxVerif.Impl.ChaCha\nnamespace Cx.Extracted.KernelsChaChaSse2\nopen Cx Cx.Impl Cx.Impl.ChaCha.Sse2\nset_option autoImplicit false\n"
 FOOTER = "end Cx.Extracted.KernelsChaChaSse2\n"
 LEAN_FILE = "KernelsChaChaSse2"
